@@ -24,6 +24,7 @@ type Case struct {
 	Layout int    // where _onBounds sits among the parser type's methods (pgo.Opts.BoundsLayout)
 	Nil    uint64 `json:",omitempty"` // rules whose actions return a nil `any` (pgo.Opts.NilMask)
 	Tok    uint64 `json:",omitempty"` // rules whose actions return the last Token they received (pgo.Opts.TokMask)
+	Any    uint64 `json:",omitempty"` // rules whose action parameters are all `any`: productions of equal length share a method (pgo.Opts.AnyMask)
 	PtrDis bool   `json:",omitempty"` // Token.Discard has a pointer receiver (pgo.Opts.PtrDiscard)
 	Inputs [][]int
 	Lox    string `json:",omitempty"`
@@ -68,6 +69,11 @@ func Gen(rt *rapid.T, run *ev.Run, nInputs int, nullableHeavy bool) *Case {
 			if len(pgo.TokRules(g, c.Tok, pgo.NilRules(g, c.Nil))) > 0 {
 				run.Class("gen:rules-returning-a-token")
 			}
+		}
+		if rapid.IntRange(0, 2).Draw(rt, "any-params") == 0 {
+			// one `any`-typed method for all productions of a rule that have the same length
+			c.Any = rapid.Uint64().Draw(rt, "anymask")
+			run.Class("gen:rules-with-any-typed-shared-methods")
 		}
 		for k := 0; k < nInputs; k++ {
 			w := cfggen.Sentence(rt, p, rapid.IntRange(2, 8).Draw(rt, "b"))
@@ -125,7 +131,7 @@ func Eval(run *ev.Run, cases []*Case, m Mode, count bool, prop string) ([]Verdic
 	mk := func(onb bool) ([]*pbatch.Case, []*pbatch.Out, error) {
 		pc := make([]*pbatch.Case, len(cases))
 		for i, c := range cases {
-			pc[i] = &pbatch.Case{G: c.G, Inputs: c.Inputs, OnBounds: onb, NamedSlices: c.Named, BoundsLayout: c.Layout, NilMask: c.Nil, TokMask: c.Tok, PtrDiscard: c.PtrDis}
+			pc[i] = &pbatch.Case{G: c.G, Inputs: c.Inputs, OnBounds: onb, NamedSlices: c.Named, BoundsLayout: c.Layout, NilMask: c.Nil, TokMask: c.Tok, AnyMask: c.Any, PtrDiscard: c.PtrDis}
 		}
 		outs, err := pbatch.Run(pc, true)
 		return pc, outs, err
